@@ -52,6 +52,31 @@ func oracleStop(s *scen, w *world.World) error {
 		if len(bad) > 0 {
 			return fmt.Errorf("finished-too-early: %s was reported finished around the stop while nodes still await work: %v", m.ID, bad)
 		}
+		if err := failedByTheCrawler(w, m.ID, m.Item); err != nil {
+			return err
+		}
+	}
+	return nil
+}
+
+// failedByTheCrawler: "failed for good" is a verdict on the URL: a node whose last fetch was given up because the
+// crawler cancelled its own request (the server was never heard) has not failed for good.
+func failedByTheCrawler(w *world.World, id string, it *models.Item) error {
+	last := map[string]*world.Fetch{}
+	for _, f := range w.Log {
+		last[f.URL] = f
+	}
+	var bad []string
+	it.Traverse(func(n *models.Item) {
+		if n.GetStatus() != models.ItemFailed || n.GetURL().GetParsed() == nil {
+			return
+		}
+		if f := last[n.GetURL().String()]; f != nil && f.Canceled {
+			bad = append(bad, n.GetURL().String())
+		}
+	})
+	if len(bad) > 0 {
+		return fmt.Errorf("finished-with-cancelled-fetches: %s was reported finished although the fetch of %v was cancelled by the crawler itself, not failed for good", id, bad)
 	}
 	return nil
 }
